@@ -189,6 +189,7 @@ def run(case, ctx):
     if case.get("cfg"):
         cfg = dict(case["cfg"])
     key = {k: cfg[k] for k in ("cls", "D", "in_sig", "out_sig", "depth", "num_blocks", "num_conv", "num_downsamples", "activation", "norm", "preact", "bias", "torus", "N")}
+    key["mid"] = cfg.get("mid")
     sink = io.StringIO()
     evals = 0
     G = group_sample(ctx["tier"], D, rng)
